@@ -131,6 +131,8 @@ def run_case(ctx, g, rng):
             if d != "/" and rng.random() < 0.4:
                 i = rng.randint(0, len(ident))
                 ident = ident[:i] + d + ident[i:]
+            if rng.random() < 0.1:
+                ident = p + d + ident  # the identifier repeats the prefix it is requested under ("GO:GO:0032571")
             asked.append((p, segs, ident))
         path = "/" + p + d + ident
         curie = p + d + ident
